@@ -31,6 +31,10 @@ pub struct Case {
     /// Second class: replace the i-th directory by a symlink to a sentinel, back up again
     /// with the backup interrupted before its k-th mutating operation, restore that version.
     pub stitch: Option<(u16, u16, String)>,
+    /// With `stitch`: before it, remove the i-th entry and run one more interrupted backup
+    /// (stopped before its k-th mutating operation), so that three bands are stitched.
+    #[serde(default)]
+    pub pre_stitch: Option<(u16, u16)>,
 }
 
 fn sentinel_target() -> BoxedStrategy<String> {
@@ -48,7 +52,7 @@ fn sentinel_target() -> BoxedStrategy<String> {
 
 fn cfg() -> TreeCfg {
     TreeCfg {
-        max_depth: 3,
+        max_depth: 4,
         max_children: 5,
         max_len: 600,
         links: false,
@@ -69,8 +73,9 @@ fn strategy(_tier: Tier) -> BoxedStrategy<Case> {
         prop::option::weighted(0.3, any::<u16>()),
         prop::collection::vec(prop::sample::select(vec!["a", "/a", "*.txt", "b*", "é", "**/x"]).prop_map(String::from), 0..2),
         prop::option::weighted(0.35, (any::<u16>(), 0u16..30, sentinel_target())),
+        prop::option::weighted(0.5, (any::<u16>(), 0u16..40)),
     )
-        .prop_map(|((opts, mut tree), links, dest, overwrite, subtree, exclude, stitch)| {
+        .prop_map(|((opts, mut tree), links, dest, overwrite, subtree, exclude, stitch, pre_stitch)| {
             let dirs = tree.dirs();
             for (d, name, target, meta) in links {
                 let dir = &dirs[(d as usize * dirs.len()) >> 16];
@@ -79,7 +84,7 @@ fn strategy(_tier: Tier) -> BoxedStrategy<Case> {
                     meta,
                 });
             }
-            Case { opts, tree, dest, overwrite, subtree, exclude, stitch }
+            Case { opts, tree, dest, overwrite, subtree, exclude, stitch, pre_stitch }
         })
         .boxed()
 }
@@ -131,10 +136,43 @@ fn run(case: &Case, cx: &mut Cx) -> CaseResult {
     let mut stitched = false;
     let mut listing_tree = t0.clone();
 
+    let mut t0 = t0;
+    let mut removed_parent: Option<String> = None;
+    if let (Some(_), Some((ri, rk))) = (&case.stitch, &case.pre_stitch) {
+        // an earlier interrupted backup in which something had been removed
+        let cands: Vec<String> = t0.0.keys().filter(|k| k.as_str() != "/").cloned().collect();
+        if !cands.is_empty() {
+            // half of the time a directory that has children and is not directly under the root
+            let deep_dirs: Vec<String> = cands
+                .iter()
+                .filter(|c| t0.0[*c].is_dir() && tree::parent_of(c) != Some("/") && t0.0.keys().any(|k| tree::parent_of(k) == Some(c.as_str())))
+                .cloned()
+                .collect();
+            let victim = if *rk % 2 == 0 && !deep_dirs.is_empty() {
+                deep_dirs[(*ri as usize * deep_dirs.len()) >> 16].clone()
+            } else {
+                cands[(*ri as usize * cands.len()) >> 16].clone()
+            };
+            removed_parent = tree::parent_of(&victim).map(|s| s.to_string());
+            let mut t_mid = t0.clone();
+            t_mid.remove_subtree(&victim);
+            tree::rematerialise(&t0, &t_mid, &src);
+            let ctl = Ctl::new(&arch, Plan::FreezeAtMutating { k: *rk as usize + 3, torn: false });
+            let hook: Hook = Some(ctl.clone() as Arc<dyn conserve::transport::verif::Interceptor>);
+            let b = ops::backup(&arch, &hook, &src, Opts { hunk: 1, ..case.opts }, &[]);
+            ensure!(b.panic.is_none(), "C16/backup-panic", "{}", b.describe());
+            t0 = t_mid;
+        }
+    }
+    let stitch_band = crate::format::scan(&arch).bands.keys().copied().max().unwrap_or(0) + 1;
     if let Some((di, k, target)) = &case.stitch {
         let dirs: Vec<String> = t0.dirs().into_iter().filter(|d| d != "/").collect();
         if !dirs.is_empty() {
-            let d = dirs[(*di as usize * dirs.len()) >> 16].clone();
+            // half of the time the parent of what the earlier interrupted backup had removed
+            let d = match &removed_parent {
+                Some(p) if *k % 2 == 0 && p != "/" && dirs.contains(p) => p.clone(),
+                _ => dirs[(*di as usize * dirs.len()) >> 16].clone(),
+            };
             let mut t1 = t0.clone();
             let meta = t1.0[&d].meta;
             t1.remove_subtree(&d);
@@ -151,8 +189,8 @@ fn run(case: &Case, cx: &mut Cx) -> CaseResult {
             let opts = Opts { hunk: 1, ..case.opts };
             let b = ops::backup(&arch, &hook, &src, opts, &[]);
             ensure!(b.panic.is_none(), "C16/backup-panic", "{}", b.describe());
-            if crate::format::scan(&arch).bands.get(&1).map(|b| b.head.present_nonempty()).unwrap_or(false) {
-                sel = Sel::Band(1);
+            if crate::format::scan(&arch).bands.get(&stitch_band).map(|b| b.head.present_nonempty()).unwrap_or(false) {
+                sel = Sel::Band(stitch_band);
                 stitched = ctl.triggered();
                 listing_tree = t1;
             }
@@ -244,12 +282,12 @@ pub fn prop() -> Prop<Case> {
     Prop {
         id: "C16",
         level: "exploration",
-        rule: "case = (options, tree with 1-5 symlinks aimed at sentinel files/directories beside the destination via ../ chains, absolute paths, '..', '/', '.', and other names; destination absent/empty/pre-populated; overwrite flag; optional subtree and exclude selection; optionally a second, interrupted backup in which a directory was replaced by such a symlink, restored by id). Oracle: recursive lstat+content snapshot (mode, owner, mtime, ctime, inode) of the whole sandbox outside the destination is identical before and after; a pre-populated destination without overwrite must be refused and left identical. Non-trivial = a restored symlink resolves to a sentinel, or the refusal case with a non-empty version; distinct by case hash",
+        rule: "case = (options, tree with 1-5 symlinks aimed at sentinel files/directories beside the destination via ../ chains, absolute paths, '..', '/', '.', and other names; destination absent/empty/pre-populated; overwrite flag; optional subtree and exclude selection; optionally a later interrupted backup in which a directory was replaced by such a symlink, itself optionally preceded by another interrupted backup in which an entry had been removed (three stitched bands), restored by id). Oracle: recursive lstat+content snapshot (mode, owner, mtime, ctime, inode) of the whole sandbox outside the destination is identical before and after; a pre-populated destination without overwrite must be refused and left identical. Non-trivial = a restored symlink resolves to a sentinel, or the refusal case with a non-empty version; distinct by case hash",
         assumptions: &[
             "pre-populated destinations contain only plain files and directories (a hostile destination containing symlinks is outside the statement)",
             "runs as root, so permission errors cannot mask a write-through",
         ],
-        cases: |t| t.pick(2000, 60_000),
+        cases: |t| t.pick(20_000, 200_000),
         strategy,
         run,
         enumerate: None,
